@@ -8,6 +8,7 @@ import (
 	"net/http"
 	"net/url"
 	"regexp"
+	"sort"
 	"strings"
 	"testing"
 
@@ -240,6 +241,30 @@ func run(c Case) *hx.Outcome {
 		}
 	}
 
+	// prime fetches, just before a message view is judged, the message of another mailbox that
+	// bears the same id (mem ids are per-mailbox counters): whatever the server keeps from one
+	// request to the next must not show up in the view that follows (added in round m)
+	prime := func(box string, idx int) {
+		if idx < 0 {
+			return
+		}
+		var others []string
+		for b := range model {
+			if b != box {
+				others = append(others, b)
+			}
+		}
+		sort.Strings(others)
+		for _, b := range others {
+			for _, it := range model[b] {
+				if it.id == model[box][idx].id {
+					_, _, _ = doHTTP("GET", "/api/v1/mailbox/"+url.PathEscape(b)+"/"+url.PathEscape(it.id), "")
+					o.Class("a same-id message of another mailbox fetched just before the view")
+					return
+				}
+			}
+		}
+	}
 	// the body text a message view shows must be this message's: its own token and nobody else's
 	cmpBody := func(where, text string, it *item) {
 		for _, tok := range tokenRe.FindAllString(text, -1) {
@@ -351,6 +376,7 @@ func run(c Case) *hx.Outcome {
 					cmpHdr(where, l[j], box, model[box][j])
 				}
 			case "show", "uimsg":
+				prime(box, idx)
 				path := "/api/v1/mailbox/" + ep + "/" + eid
 				if op.Verb == "uimsg" {
 					path = "/serve/mailbox/" + ep + "/" + eid
@@ -567,6 +593,7 @@ func run(c Case) *hx.Outcome {
 				}
 				held = nil
 			case "get":
+				prime(box, idx)
 				m, err := cl.GetMessage(ask, cid)
 				if idx < 0 {
 					missing = true
